@@ -108,11 +108,23 @@ class RenameModel(BaseModelMutation):
         """
         old_model_sig = mutator.model_sig
 
-        new_model_sig = old_model_sig.clone()
-        new_model_sig.model_name = self.new_model_name
-        new_model_sig.table_name = self.db_table
+        # The renamed model must be resolvable under its new name (the
+        # models backing its many-to-many fields refer back to it), which
+        # the project signature only knows about once this mutation has
+        # been simulated. Build the model from a simulated copy.
+        project_sig = mutator.project_sig.clone()
+        self.run_simulation(app_label=mutator.app_label,
+                            legacy_app_label=mutator.legacy_app_label,
+                            project_sig=project_sig,
+                            database_state=mutator.database_state,
+                            database=mutator.database)
 
-        new_model = MockModel(project_sig=mutator.project_sig,
+        app_sig = (project_sig.get_app_sig(mutator.app_label) or
+                   project_sig.get_app_sig(mutator.legacy_app_label))
+        new_model_sig = app_sig.get_model_sig(self.new_model_name,
+                                              required=True)
+
+        new_model = MockModel(project_sig=project_sig,
                               app_name=mutator.app_label,
                               model_name=self.new_model_name,
                               model_sig=new_model_sig,
